@@ -31,6 +31,7 @@ class VerdictCrate:
         self.crate_attrs = crate_attrs
         self.target = os.path.join(WORK, "target-nostd" if no_std else "target")
         self.ranges = {}
+        self.prefix = "v_" + "".join(c if c.isalnum() else "_" for c in name) + "_"
 
     def write(self, cases):
         n = max(1, min(self.nshards, (len(cases) + 19) // 20))
@@ -40,7 +41,7 @@ class VerdictCrate:
         members = []
         self.ranges = {}
         for k, cs in enumerate(shards):
-            cname = "v%02d" % k
+            cname = "%s%02d" % (self.prefix, k)
             members.append(cname)
             head = ["#![allow(dead_code, unused_imports, unused_variables, unused_mut, non_snake_case, non_camel_case_types, unused_unsafe, unreachable_code, clippy::all)]"]
             if self.no_std:
@@ -67,7 +68,7 @@ class VerdictCrate:
             write_if_changed(os.path.join(self.dir, cname, "Cargo.toml"), '[package]\nname = "%s"\nversion = "0.1.0"\nedition = "2021"\n\n[dependencies]\n%s' % (cname, deps))
         if os.path.isdir(self.dir):
             for e in os.listdir(self.dir):
-                if e.startswith("v") and len(e) == 3 and e not in members:
+                if e.startswith("v") and os.path.isdir(os.path.join(self.dir, e, "src")) and e not in members:
                     shutil.rmtree(os.path.join(self.dir, e), ignore_errors=True)
         ws = '[workspace]\nresolver = "2"\nmembers = [%s]\n\n[profile.dev]\nopt-level = 0\ndebug = 0\nincremental = false\n' % ", ".join('"%s"' % m for m in members)
         write_if_changed(os.path.join(self.dir, "Cargo.toml"), ws)
